@@ -164,6 +164,11 @@ func c07main(c *Ctx) {
 			if r.P(8) {
 				n = r.Range(7, 20)
 			}
+			if r.P(4) {
+				// a long-lived logger whose attributes were set again and again: 65-200 bindings over a few keys
+				n = r.Range(65, 200)
+				c.R.Add("loggers_with_65_or_more_own_bindings", 1)
+			}
 			src := fmt.Sprintf("anc%d", depth-1-d)
 			if d == depth-1 {
 				src = "own"
@@ -244,7 +249,13 @@ func c07main(c *Ctx) {
 			regs = append(regs, regKey{key, name})
 			keyDesc = append(keyDesc, fmt.Sprintf("%T(%v)", key, key))
 			if r.P(75) { // present in the context
-				ctx = context.WithValue(ctx, key, fmt.Sprintf("ctx#%d", i))
+				var v any = fmt.Sprintf("ctx#%d", i)
+				if r.P(25) {
+					// present with the zero value of its type: a value found in the context like any other
+					v = gen.Pick(r, []any{0, false, "", int64(0), uint8(0)})
+					c.R.Add("context_values_that_are_zero_values", 1)
+				}
+				ctx = context.WithValue(ctx, key, v)
 			}
 		}
 		// the reference looks every registered key up the way a context does: the same key registered
@@ -252,7 +263,7 @@ func c07main(c *Ctx) {
 		if !nilCtx {
 			for _, rk := range regs {
 				if v := ctx.Value(rk.key); v != nil {
-					ctxList = append(ctxList, srcKV{key: rk.name, src: v.(string)})
+					ctxList = append(ctxList, srcKV{key: rk.name, src: fmt.Sprint(v)})
 				}
 			}
 		}
